@@ -4,11 +4,15 @@ import "time"
 
 const verifMaxTS = 4102444800000 // 2100-01-01T00:00:00Z in ms
 
-// verifZone installs a fixed-offset local zone with an arbitrary offset (multiple of 15 minutes in [-12h, +14h]).
+var verifZoneSec int64
+
+// verifZone installs a fixed-offset local zone with an arbitrary offset (a multiple of 15 minutes
+// in [-12h, +14h]) and returns the offset in milliseconds.
 func verifZone() int64 {
 	q := verifRange("zoneQuarterHours", -48, 56)
 	off := int(q) * 900
 	time.Local = time.FixedZone("verif", off)
+	verifZoneSec = int64(off)
 	return int64(off) * 1000
 }
 
@@ -26,40 +30,68 @@ func verifDaysBeforeYear(y int64) int64 {
 	return d
 }
 
-// verifTimestamp returns an arbitrary millisecond timestamp in [1970-01-01, 2100-01-01) UTC.
-// The window is partitioned by calendar year (one path per year, the engine's case split); inside
-// a year the day, the second of the day and the millisecond are symbolic. The partition is
-// exhaustive: D(1970)=0, D(y+1)=D(y)+len(y) by construction, and D(2100) days = verifMaxTS
-// (asserted).
-func verifTimestamp(tag string) int64 {
+// verifLocalTime is a timestamp given by its local civil coordinates (the reference model).
+type verifLocalTime struct {
+	year, month  int64 // concrete on every path (the partition); month is 0-based
+	monthLen     int64 // days of that month
+	dayOfMonth   int64 // 0-based; symbolic, or concrete when concreteDay was requested
+	secOfDay, ms int64 // symbolic
+	dayNumber    int64 // days since 1970-01-01 (local)
+	monthStart   int64 // day number of the first day of the month
+	t            int64 // the UTC millisecond timestamp
+}
+
+// verifTimestamp returns an arbitrary millisecond timestamp t >= 0 whose LOCAL civil date (in the
+// zone installed by verifZone) lies in [1970-01-02, 2100-01-01). The window is partitioned by local
+// year and month – and by day of the month if concreteDay – with one path per cell (the engine's
+// case split); inside a cell the remaining coordinates are symbolic. The partition is exhaustive:
+// D(1970)=0, D(y+1)=D(y)+len(y) by construction, D(2100) days = verifMaxTS and the months of a year
+// add up to its length (both asserted). Quick tier: a fixed selection of years; thorough: all 130.
+func verifTimestamp(tag string, concreteDay bool) verifLocalTime {
 	verifAssert(verifDaysBeforeYear(2100)*86400000 == verifMaxTS, "partition covers the window")
-	y := 1970 + int64(verifChoose(tag+".year", 130))
-	n := int64(365)
-	if verifIsLeap(y) {
-		n = 366
+	var lt verifLocalTime
+	if verifThorough() {
+		lt.year = 1970 + int64(verifChoose(tag+".year", 130))
+	} else {
+		years := []int64{1970, 1971, 1972, 1999, 2000, 2001, 2024, 2038, 2096, 2099}
+		if concreteDay {
+			years = []int64{2000, 2099} // a leap year under the 400-year rule; the last year of the window
+		}
+		lt.year = years[verifChoose(tag+".year", len(years))]
 	}
-	doy := verifRange(tag+".doy", 0, n-1)
-	sec := verifRange(tag+".sec", 0, 86399)
-	ms := verifRange(tag+".ms", 0, 999)
-	return ((verifDaysBeforeYear(y)+doy)*86400+sec)*1000 + ms
+	mlen := []int64{31, 28, 31, 30, 31, 30, 31, 31, 30, 31, 30, 31}
+	if verifIsLeap(lt.year) {
+		mlen[1] = 29
+	}
+	var total int64
+	for i := 0; i < 12; i++ {
+		total += mlen[i]
+	}
+	verifAssert(total == 365 || (verifIsLeap(lt.year) && total == 366), "months add up to the year")
+	m := verifChoose(tag+".month", 12)
+	lt.month = int64(m)
+	lt.monthLen = mlen[m]
+	var before int64
+	for i := 0; i < m; i++ {
+		before += mlen[i]
+	}
+	first := int64(0)
+	if lt.year == 1970 && m == 0 {
+		first = 1 // the window starts at local 1970-01-02, so that t >= 0 in every zone
+	}
+	if concreteDay {
+		lt.dayOfMonth = first + int64(verifChoose(tag+".dom", int(mlen[m]-first)))
+	} else {
+		lt.dayOfMonth = verifRange(tag+".dom", first, mlen[m]-1)
+	}
+	lt.secOfDay = verifRange(tag+".localsec", 0, 86399)
+	lt.ms = verifRange(tag+".ms", 0, 999)
+	lt.monthStart = verifDaysBeforeYear(lt.year) + before
+	lt.dayNumber = lt.monthStart + lt.dayOfMonth
+	lt.t = (lt.dayNumber*86400+lt.secOfDay-verifZoneSec)*1000 + lt.ms
+	verifAssume(lt.t >= 0)
+	return lt
 }
 
-// day calculator: segment is the local day of t.
-func verifC13DaySegment() {
-	zone := verifZone()
-	t := verifTimestamp("t")
-	d := &day{}
-	s := d.CalcSegmentTime(t)
-	verifAssert(s <= t && t < s+86400000, "day segment contains t")
-	verifAssert((s+zone)%86400000 == 0, "day segment starts at local midnight")
-	verifReach("end")
-}
-
-func verifC13DaySegmentReach() {
-	zone := verifZone()
-	t := verifTimestamp("t")
-	d := &day{}
-	s := d.CalcSegmentTime(t)
-	_ = zone
-	verifAssert(s != 86400000*365, "reach")
-}
+// local midnight of a day number, as a UTC millisecond timestamp
+func verifMidnight(dayNumber int64) int64 { return (dayNumber*86400 - verifZoneSec) * 1000 }
